@@ -1,0 +1,60 @@
+//go:build verif
+
+package layers
+
+// ---- Prism header (C19 / C01 / C02 / C04) ---------------------------------------------------------------------------
+
+// decodePrismValue is only ever handed a 12-byte window of the header.
+//@ func decodePrismValue(data []byte, pv *PrismValue) error
+//@   props C19 C01 C02 C04
+//@   requires 8 <= len(data) && len(data) <= 65535
+
+//@ func (m *PrismHeader) DecodeFromBytes(data []byte, df gopacket.DecodeFeedback) error
+//@   props C19 C01 C02 C04
+//@   ensures result == nil ==> len(m.BaseLayer.Payload) <= len(data) - 24
+//@   loop 0: invariant 0 <= i && i <= len(m.Values) && offset == 24 + 12*i
+//@   loop 0: invariant 24 + 12*len(m.Values) <= m.Length && m.Length <= len(data)
+
+// ---- OSPF link state advertisements (C19 / C01 / C02 / C04) ----------------------------------------------------------
+
+// The running offset (an int since the 4 GiB wrap fix) stays inside data: every step checks offset+20 <= len(data)
+// and extractLSAInformation only succeeds when the announced LSA length fits into what is left.
+//@ func getLSAsv2(num uint32, data []byte) ([]LSA, error)
+//@   props C19 C01 C02 C04
+//@   loop 0: invariant 0 <= offset && offset <= len(data)
+//@ func getLSAs(num uint32, data []byte) ([]LSA, error)
+//@   props C19 C01 C02 C04
+//@   loop 0: invariant 0 <= offset && offset <= len(data)
+//@ func extractLSAInformation(lstype, lsalength uint16, data []byte) (interface{}, error)
+//@   props C19 C01 C02 C04
+//@   ensures result1 == nil ==> 20 <= lsalength && lsalength <= len(data)
+//@   loop 5: invariant 0 <= j && prefixOffset <= 32 + 259*j
+
+// ---- TCP options (C19 / C01 / C02 / C04) ------------------------------------------------------------------------------
+
+// Closed form of the DSS option length: callers reason about the sum instead of re-deriving it from the branches.
+//@ func optionMptcpDsslen(OptionMPTCPDss *Dss, csum bool) uint8
+//@   props C19 C01 C02 C04
+//@   ensures result == 4 + (OptionMPTCPDss.A ? (OptionMPTCPDss.a ? 8 : 4) : 0) + (OptionMPTCPDss.M ? (OptionMPTCPDss.m ? 14 : 10) + (csum ? 2 : 0) : 0)
+
+// ---- RadioTap (C19 / C01 / C02 / C04) ---------------------------------------------------------------------------------
+
+// The namespace decoders work with 16-bit offsets; RadioTap.DecodeFromBytes hands them at most the first 65535
+// bytes, so that offset+k (k <= 12) cannot wrap once int(offset)+k <= len(data) has been checked.
+//@ func (m RadioTapNamespace) decodeRadioTapNamespace(data []byte, offset uint16, present RadioTapPresent) (RadioTapNamespace, uint16, error)
+//@   props C19 C02 C04
+//@   requires len(data) <= 65535
+//@ func (v VendorNamespace) decodeVendorNamespace(data []byte, offset uint16, present RadioTapPresent) (VendorNamespace, uint16, error)
+//@   props C19 C02 C04
+//@   requires len(data) <= 65535
+
+//@ func (m *RadioTap) DecodeFromBytes(data []byte, df gopacket.DecodeFeedback) error
+//@   props C19 C01 C02 C04
+//@   loop 0: invariant len(m.Present) >= 1 && 4 <= offset && offset + 4 <= dataLen && m.Length <= dataLen
+//@   loop 0: decreases dataLen - offset
+//@   loop 1: invariant m.Length <= dataLen
+//@   loop 1: invariant len(m.RadioTapValues) >= 1 || (radioTapNamespace && rangeindex == -1)
+
+// Assumed contract of the standard library: the IEEE CRC-32 constructor returns a usable hash.
+//@ extern hash/crc32.NewIEEE() hash.Hash32
+//@   ensures result != nil
